@@ -412,6 +412,11 @@ macro_rules! podstr_call {
                 PodStr::<$n>::load_mut(bytes).copy_from_str(&text());
                 "-".to_string()
             }
+            "copyb" => {
+                // the safe byte-slice entry point: arbitrary (possibly invalid) bytes
+                PodStr::<$n>::load_mut(bytes).copy_from_slice(&op.blob.clone().unwrap());
+                "-".to_string()
+            }
             "asstr" => match PodStr::<$n>::load(bytes).as_str() {
                 Ok(s) => okhex(s.as_bytes()),
                 Err(_) => "err".to_string(),
@@ -438,7 +443,7 @@ impl PodStrSut {
     pub fn parse(&self, l: &str) -> Option<Op> {
         let ws: Vec<&str> = l.split_whitespace().collect();
         let name = *ws.first()?;
-        const NAMES: &[&str] = &["from", "copy", "asstr", "disp", "load", "asunchk"];
+        const NAMES: &[&str] = &["from", "copy", "copyb", "asstr", "disp", "load", "asunchk"];
         let n = NAMES.iter().find(|n| **n == name)?;
         let (args, blob) = Op::parse_args(&ws[1..]);
         Some(Op { name: n, args, blob })
@@ -476,6 +481,11 @@ impl Sut for PodStrSut {
             v.push(Op::with_blob("from", &[], s.as_bytes()));
             v.push(Op::with_blob("copy", &[], s.as_bytes()));
         }
+        if self.byte_inits {
+            for b in byte_strings(2).into_iter().chain(structured()) {
+                v.push(Op::with_blob("copyb", &[], &b));
+            }
+        }
         v
     }
     fn random_op(&self, rng: &mut Rng, _state: &[u8], _phase: usize) -> Op {
@@ -489,7 +499,7 @@ impl Sut for PodStrSut {
     }
     fn kind(&self, op: &Op) -> Kind {
         match op.name {
-            "from" | "copy" => Kind::Mutating,
+            "from" | "copy" | "copyb" => Kind::Mutating,
             _ => Kind::Query,
         }
     }
@@ -526,7 +536,7 @@ impl Sut for PodStrSut {
         let end = pre.iter().position(|b| *b == 0).unwrap_or(n);
         let text = &pre[..end];
         match op.name {
-            "from" | "copy" => {
+            "from" | "copy" | "copyb" => {
                 let s = op.blob.clone().unwrap();
                 let k = s.len().min(n);
                 let mut exp = s[..k].to_vec();
